@@ -58,18 +58,32 @@ theorem mxcsr_default : MxCsr.default = 0x1F80 := by decide
 
 /-! ### Privilege level -/
 
-/-- `PrivilegeLevel::from_u16` succeeds exactly on the four privilege levels and returns the level
-with that number. -/
+/-- `PrivilegeLevel::from_u16` succeeds exactly on the four privilege levels (returning the level
+with that number) and panics on every other `u16`. -/
 theorem pl_from_u16_spec (v : Nat) :
-    PrivilegeLevel.fromU16 v = (if isPrivilegeLevel v then
-      (PrivilegeLevel.fromU16 v) else .panic) ∧
-    ((∃ p, PrivilegeLevel.fromU16 v = .ok p) ↔ v < 4) ∧
-    (∀ p, PrivilegeLevel.fromU16 v = .ok p → p.toNat = v) := by
+    (isPrivilegeLevel v = true → ∃ p, PrivilegeLevel.fromU16 v = .ok p ∧ p.toNat = v) ∧
+    (isPrivilegeLevel v = false → PrivilegeLevel.fromU16 v = .panic) := by
   match v with
-  | 0 | 1 | 2 | 3 => simp [PrivilegeLevel.fromU16, isPrivilegeLevel, PrivilegeLevel.toNat,
-      Generated.PrivilegeLevel_Ring0, Generated.PrivilegeLevel_Ring1, Generated.PrivilegeLevel_Ring2,
-      Generated.PrivilegeLevel_Ring3]
-  | n + 4 => simp [PrivilegeLevel.fromU16, isPrivilegeLevel]
+  | 0 => exact ⟨fun _ => ⟨.ring0, rfl, rfl⟩, fun h => absurd h (by decide)⟩
+  | 1 => exact ⟨fun _ => ⟨.ring1, rfl, rfl⟩, fun h => absurd h (by decide)⟩
+  | 2 => exact ⟨fun _ => ⟨.ring2, rfl, rfl⟩, fun h => absurd h (by decide)⟩
+  | 3 => exact ⟨fun _ => ⟨.ring3, rfl, rfl⟩, fun h => absurd h (by decide)⟩
+  | n + 4 =>
+    refine ⟨fun h => ?_, fun _ => by simp [PrivilegeLevel.fromU16]⟩
+    simp [isPrivilegeLevel] at h
+    omega
+
+/-- … hence `from_u16 v` is `ok` iff `v < 4`. -/
+theorem pl_from_u16_ok_iff (v : Nat) : (∃ p, PrivilegeLevel.fromU16 v = .ok p) ↔ v < 4 := by
+  have h := pl_from_u16_spec v
+  constructor
+  · rintro ⟨p, hp⟩
+    cases hv : isPrivilegeLevel v
+    · rw [h.2 hv] at hp; cases hp
+    · simpa [isPrivilegeLevel] using hv
+  · intro hv
+    obtain ⟨p, hp, _⟩ := h.1 (by simpa [isPrivilegeLevel] using hv)
+    exact ⟨p, hp⟩
 
 theorem pl_round_trip (p : PrivilegeLevel) : PrivilegeLevel.fromU16 p.toNat = .ok p := by
   cases p <;> rfl
